@@ -798,7 +798,25 @@ def _rand_loc(rng):
     return b"/y"
 
 
-LOCS_OK = [b"/y", b"y?a=1", b"http://127.0.0.1:8080/z", b"/a%20b?x=%5B", b"?q", b"#f"]
+# URL-structural characters percent-encoded once or twice, at the start of and inside the path: Client.redirect
+# decodes the Location once; whatever is still encoded after that is path text and must stay encoded
+def _enc_struct(rng):
+    ch = rng.choice(b"/:[]@?#%")
+    once = b"%%%02X" % ch
+    twice = b"%25" + once[1:]
+    return rng.choice([once, twice, twice, once.lower(), b"%2525" + once[1:]])
+
+
+def _struct_loc(rng):
+    head = rng.choice([b"/", b"/", b"", b"http://127.0.0.1:8080/", b"/a/"])
+    parts = [_enc_struct(rng) for _ in range(rng.randint(1, 4))]
+    tail = rng.choice([b"", b"x", b"h:99999/", b"a:b", b"/y?q=1", b"?k=%2526"])
+    k = rng.randrange(len(parts) + 1)
+    return head + b"".join(parts[:k]) + rng.choice([b"", b"p", b"0"]) + b"".join(parts[k:]) + tail
+
+
+LOCS_OK = [b"/%252F%255Bx", b"/%252F%252Fh:99999/", b"/%2561%253Ab", b"/%253A%2540%2523", b"/a%252Fb%253Fc", b"/%2525", b"/x%25", b"/%25252F",
+           b"/y", b"y?a=1", b"http://127.0.0.1:8080/z", b"/a%20b?x=%5B", b"?q", b"#f"]
 
 
 def _response(rng, last=False, method="GET", redirect=None):
@@ -907,8 +925,16 @@ def _gen_client(rng):
     if kind < 0.15:      # redirects
         bad = rng.random() < 0.6
         loc = rng.choice(LOCS_BAD) if bad else rng.choice(LOCS_OK)
-        if rng.random() < 0.5:
+        k2 = rng.random()
+        if k2 < 0.35:
             loc = _rand_loc(rng)
+        elif k2 < 0.6:
+            for _ in range(20):
+                loc = _struct_loc(rng)
+                if _loc_stays(loc):
+                    break
+            else:
+                loc = b"/%252F%255Bx"
         r1, _ = _response(rng, method=method, redirect=(loc,))
         # the redirect response must be self delimited
         if b"Content-Length" not in r1 and b"hunked" not in r1.lower():
@@ -1042,6 +1068,14 @@ def directed():
         C(b"HTTP/1.1 302 Found\r\nLocation: ///x\r\nContent-Length: 0\r\n\r\n" + OK, edits=["redirect"], expect="ok"),
         C(b"HTTP/1.1 302 Found\r\nLocation: http:a:b\r\nContent-Length: 0\r\n\r\n" + OK, nreq=2, edits=["redirect-bad"], expect="error"),   # path a:b re-split by build: scheme 'a'
         C(b"HTTP/1.1 302 Found\r\nLocation: http:x\r\nContent-Length: 0\r\n\r\n" + OK, edits=["redirect"], expect="ok"),
+        # doubly encoded structural characters stay encoded once: the follow-up path is /%2F%5Bx, not //[x
+        C(b"HTTP/1.1 302 Found\r\nLocation: /%252F%255Bx\r\nContent-Length: 0\r\n\r\n" + OK, edits=["redirect"], expect="ok"),
+        C(b"HTTP/1.1 302 Found\r\nLocation: /%252F%252Fh:99999/\r\nContent-Length: 0\r\n\r\n" + OK, edits=["redirect"], expect="ok"),
+        C(b"HTTP/1.1 302 Found\r\nLocation: /%2561%253Ab\r\nContent-Length: 0\r\n\r\n" + OK, edits=["redirect"], expect="ok"),
+        C(b"HTTP/1.1 302 Found\r\nLocation: %252F%252Fother%253A1/\r\nContent-Length: 0\r\n\r\n" + OK, edits=["redirect"], expect="ok"),
+        C(b"HTTP/1.1 302 Found\r\nLocation: %2F%2Fh:99999/\r\nContent-Length: 0\r\n\r\n" + OK, nreq=2, edits=["redirect-bad"], expect="error"),   # singly encoded: //h:99999/ after the decode, refused
+        C(b"HTTP/1.1 302 Found\r\nLocation: /%2F%2Fh:99999/\r\nContent-Length: 0\r\n\r\n" + OK, edits=["redirect"], expect="ok"),                # ///h:99999/: empty host, path /h:99999/
+        C(b"HTTP/1.1 302 Found\r\nLocation: http://127.0.0.1:8080/%255B%253A%2540?k=%2526\r\nContent-Length: 0\r\n\r\n" + OK, edits=["redirect"], expect="ok"),
         C(b"HTTP/1.1 302 Found\r\nLocation: :\r\nContent-Length: 0\r\n\r\n" + OK, edits=["redirect"], expect="ok"),
         # an over-long SSE line kills the event parser; later responses on the same client must still be serviced
         C(SSEH + b"Transfer-Encoding: chunked\r\n\r\n" + CH(b"data: " + b"x" * 70000) + b"HTTP/1.1 200 OK\r\nTransfer-Encoding: chunked\r\n\r\n2\r\nhi\r\n0\r\n\r\n", nreq=2, edits=["sse-long"], settle=6),
